@@ -334,3 +334,12 @@ def c13_index_tip_follows_reorg(ctx, v):
     c03_m_blockring_reorg)."""
     from . import obl_c03
     obl_c03.c03_m_blockring_reorg(ctx, v)
+
+
+def c13_tx_unwind_restores_inputs(ctx, v):
+    """unwinding a block that carried rebroadcasts must make the originals spendable again (a fork
+    across the window edge unwinds one rebroadcasting block and winds another): every transaction
+    type restores its value-carrying inputs and removes its outputs on unwind (same obligation as
+    C03 c03_m_tx_wind_unwind)."""
+    from . import obl_c03
+    obl_c03.c03_m_tx_wind_unwind(ctx, v)
